@@ -303,3 +303,34 @@ def r6(fx):
     pats = [ast.unparse(pat.match(c, 'apply_mask(H_m, H_p, width, height, is_encoding_region)')['p']) for c in calls] if oka else []
     yield ob('requested and automatic path use the same apply_mask with predicates from the same table', oka
              and sorted(pats) == ['mask_pattern', 'mask_patterns[proposed_mask]'], fn, got=pats, want=['mask_patterns[proposed_mask]', 'mask_pattern'])
+
+
+def stateless(fx, prop):
+    """Shared rule: the functions a property is anchored in, and everything they call, keep no state between calls:
+    no write to a module-level object (directly, through an alias or a callee), no memoised results, no mutable
+    default argument.  A cache, a reused work buffer or a lazily filled table makes the result of a call depend on
+    earlier (or concurrent) calls, which breaks 'for every input' properties for particular call histories only."""
+    from ..anchors import ANCHORS
+    P = eff.program(fx.forest)
+    fn_anchor, _ = ANCHORS[prop]
+    roots = []
+    for (m, q), fi in P.fns.items():
+        pre = fn_anchor.get(m, [])
+        if any(q == p_ or q.startswith(p_ + '.') for p_ in pre):
+            roots.append((m, q))
+    need(roots, f'no anchor function of {prop} found')
+    reach = P.reachable(roots)
+    for k in sorted(reach):
+        fi = P.fns[k]
+        if k[0] == 'cli' and k[1] in ('make_code', '_AttrDict.__init__'):
+            continue
+        probs = []
+        for g, ents in fi.mut_globals.items():
+            probs.append(f'writes module-level object {g} (line {ents[0][0]}: {ents[0][1]})')
+        m = _memoised(fi.node)
+        if m:
+            probs.append(f'results cached by @{m}')
+        md = _mutable_defaults(fi.node)
+        if md:
+            probs.append(f'mutable default argument(s) {md}')
+        yield Ob(f'{fi.name}: keeps no state between calls', not probs, fi.name, fi.node.lineno, '; '.join(probs) or 'stateless', 'stateless', True)
